@@ -439,8 +439,8 @@ let () =
       let k = ref 0 in
       List.iter (fun be -> List.iter (fun ver -> List.iter (fun fmt -> List.iter (fun asz -> List.iter (fun cfi ->
         incr k;
-        (* the two known-finding flavours (1, 3) only once per version x byte order *)
-        if (cfi <> 1 && cfi <> 3) || (fmt = 4 && asz = 8) then begin
+        (* the known-finding flavour (3: symbolic pcrel|sdata4 .eh_frame pointers) only once per version x byte order *)
+        if cfi <> 3 || (fmt = 4 && asz = 8) then begin
           write_case emit be ver fmt asz (seed * 7919 + !k) 2 4 1023 cfi 2 3;
           write_case emit be ver fmt asz (seed * 7919 + !k) 1 3 (1022 land (lnot 1)) cfi 1 2
         end)
@@ -452,7 +452,7 @@ let () =
         let fmt = if rand_int r 4 = 0 then 8 else 4 in
         let asz = if rand_int r 3 = 0 then 4 else 8 in
         let flags = match rand_int r 4 with 0 -> 1023 | 1 -> rand_int r 1024 | _ -> rand_int r 1024 lor 4 in
-        let cfi = (let x = rand_int r 100 in if x = 0 then 1 else if x = 1 then 3 else if x < 22 then 2 else if x < 37 then 4 else 0) in
+        let cfi = (let x = rand_int r 100 in if x < 15 then 1 else if x = 15 then 3 else if x < 32 then 2 else if x < 45 then 4 else 0) in
         write_case emit be ver fmt asz (seed * 1000003 + i) (1 + rand_int r 3) (rand_int r 9) flags cfi (1 + rand_int r 3) (rand_int r 6)
       done);
   register "c18.corpus" ~doc:"compiler-built corpus sections read through RelocateReader with the identity relocation vs plainly; then a third of the logged address sites perturbed (implicit/explicit addends) and RelocateReader on raw bytes vs plain reader on applied bytes"
